@@ -37,9 +37,29 @@ fn scopes(shell: &vh::Sh) -> usize {
         .unwrap_or(usize::MAX)
 }
 
+static CASE_STARTED: std::sync::atomic::AtomicU64 = std::sync::atomic::AtomicU64::new(0);
+
+fn now_s() -> u64 {
+    std::time::SystemTime::now().duration_since(std::time::UNIX_EPOCH).map(|d| d.as_secs()).unwrap_or(0)
+}
+
 #[tokio::main(flavor = "multi_thread", worker_threads = 2)]
 async fn main() {
+    // a request that does not come back (a leak can make every further command slower and slower, or loop) must cost
+    // one case, not the run: answer `HANG` for it and leave; the driver restarts the harness for the remaining requests
+    let limit: u64 = std::env::var("C18_WATCHDOG_S").ok().and_then(|v| v.parse().ok()).unwrap_or(45);
+    std::thread::spawn(move || loop {
+        std::thread::sleep(std::time::Duration::from_millis(500));
+        let t = CASE_STARTED.load(std::sync::atomic::Ordering::SeqCst);
+        if t != 0 && now_s().saturating_sub(t) > limit {
+            println!("HANG");
+            use std::io::Write as _;
+            let _ = std::io::stdout().flush();
+            std::process::exit(3);
+        }
+    });
     for line in vh::lines() {
+        CASE_STARTED.store(now_s(), std::sync::atomic::Ordering::SeqCst);
         let f = fields(&line);
         if f.len() != 4 {
             println!("bad-request");
@@ -98,5 +118,6 @@ async fn main() {
             zo.push(last.1.to_string());
         }
         println!("scopes={} calls={} fds={} zombies={}", sc.join(","), ca.join(","), fd.join(","), zo.join(","));
+        CASE_STARTED.store(0, std::sync::atomic::Ordering::SeqCst);
     }
 }
